@@ -62,10 +62,14 @@ def sampleVerdict (adv : Nat) (obs : List String) : String :=
 def step (st : St) (line : String) : St × String :=
   let (act, obs) := splitArrow (tokens line)
   match act with
-  | ["conn", adv] =>
+  | "conn" :: adv :: sched =>
     match adv.toNat? with
     | some a =>
-      if a < 1 || a > 1000 then (st, "bad-op")
+      let schedOK := match sched with
+        | [] => true
+        | [x] => ["default", "rr", "p9218", "p7540", "rand"].contains x
+        | _ => false
+      if a < 1 || a > 1000 || !schedOK then (st, "bad-op")
       else ({ started := true, adv := a }, sampleVerdict a obs)
     | none => (st, "bad-op")
   | ["end"] =>
